@@ -33,6 +33,43 @@ fn main() {
                 println!("{c}");
             }
         }
+        "sample" => {
+            // vjx sample <Cnn> <n> [seed] [--rejected]: print generated cases
+            let id = args.get(2).cloned().unwrap_or_else(|| usage());
+            let n: usize = args.get(3).and_then(|s| s.parse().ok()).unwrap_or(5);
+            let seed: u64 = args.get(4).and_then(|s| s.parse().ok()).unwrap_or(1);
+            let only_rejected = args.iter().any(|a| a == "--rejected");
+            let p = vjx::props::by_id(&id).expect("unknown property");
+            let mut state = seed.wrapping_mul(0x9E3779B97F4A7C15) | 1;
+            let mut shown = 0;
+            let mut tries = 0;
+            while shown < n && tries < 100000 {
+                tries += 1;
+                let mut bytes = vec![0u8; p.max_bytes()];
+                for b in bytes.iter_mut() {
+                    state ^= state << 13;
+                    state ^= state >> 7;
+                    state ^= state << 17;
+                    *b = (state >> 24) as u8;
+                }
+                let mut ch = vjx::choices::Choices::new(&bytes);
+                let case = p.generate(&mut ch);
+                let lang = vjx::driver::Lang::from_str(&case.lang);
+                let rej = vjx::driver::parses_jsx(&case.source, lang).err();
+                if only_rejected && rej.is_none() {
+                    continue;
+                }
+                shown += 1;
+                println!("=== case {shown} lang={} options={:?} labels={:?} nontrivial={} bytes_used={}", case.lang, case.options, case.labels, case.nontrivial, ch.consumed());
+                println!("{}", case.source);
+                if let Some(r) = rej {
+                    println!("--- REJECTED: {r:?}");
+                }
+                if args.iter().any(|a| a == "--extra") {
+                    println!("--- extra: {}", serde_json::to_string_pretty(&case.extra).unwrap());
+                }
+            }
+        }
         "check" => {
             let id = args.get(2).cloned().unwrap_or_else(|| usage());
             let mut tier = match std::env::var("VERIF_TIER").as_deref() {
